@@ -374,6 +374,7 @@ def check(pid, tier='quick', base_seed=0, runs=None, wall_cap=None, corpus=True,
             tot['viol'].append((i, 'unlisted-' + kid, msg))
     # violations: regenerate, minimise, write replay, confirm
     seen_tags = set()
+    unreproducible = []
     for (i, tag, msg) in sorted(tot['viol']):
         if tag in seen_tags or len(seen_tags) >= 6:
             continue
@@ -393,10 +394,26 @@ def check(pid, tier='quick', base_seed=0, runs=None, wall_cap=None, corpus=True,
         path = write_replay(pid, best, tapes, None if tag.startswith('unlisted-') else tag, m2[0] if m2 else msg, o)
         ok, txt = (True, '') if tag.startswith('unlisted-') else confirm_in_fresh_process(pid, path)
         if not ok:
-            print('HARNESS-ERROR property=%s nondeterministic: run %d (tag %s) does not replay from %s\n%s' % (pid, i, tag, path, txt), file=out)
-            exit_code = 2
+            # the minimised case does not reproduce in a fresh interpreter; a library that keeps state across runs
+            # (module-level caches) can cause that. Fall back to the original, unminimised case of that run.
+            o0 = mod.evaluate(case)
+            m0 = [v[1] for v in o0['violations'] if v[0] == tag]
+            path0 = write_replay(pid, case, None, tag, (m0[0] if m0 else msg) + ' [unminimised]', o0)
+            ok0, txt0 = confirm_in_fresh_process(pid, path0)
+            if ok0:
+                ok, path, m2, steps = True, path0, m0 or [msg], 0
+                print('NOTE property=%s the minimised case for run %d did not reproduce in a fresh interpreter; reporting the unminimised case' % (pid, i), file=out)
+        if not ok:
+            unreproducible.append('run %d (tag %s) does not replay from %s\n%s' % (i, tag, path, txt))
             continue
         viol_lines.append((path, tag, (m2[0] if m2 else msg) + ' [run %d, minimised in %d steps]' % (i, steps)))
+    for u in unreproducible:
+        if viol_lines:
+            # something else did reproduce exactly: report that; this one is noise (e.g. a library that keeps state across runs)
+            print('NOTE property=%s a violation seen in the batch did not reproduce in a fresh interpreter: %s' % (pid, u.splitlines()[0]), file=out)
+        else:
+            print('HARNESS-ERROR property=%s nondeterministic: %s' % (pid, u), file=out)
+            exit_code = 2
     for kid, (cnt, msg) in sorted(known_lines.items()):
         print('KNOWN-FINDING: property=%s %s %s (matched %d times in this run)' % (pid, kid, msg, cnt), file=out)
     for (path, tag, msg) in viol_lines:
